@@ -3,6 +3,8 @@ import Driver.Fns
 import Driver.Codec
 import Driver.BFT
 import Driver.Hash
+import Driver.TxPool
+import Driver.ConnGater
 
 def main (args : List String) : IO UInt32 := do
   match args with
@@ -11,5 +13,7 @@ def main (args : List String) : IO UInt32 := do
   | ["C08"] => Driver.Codec.main; return 0
   | ["C02"] => Driver.BFT.main; return 0
   | ["hash"] => Driver.Hash.main; return 0
+  | ["C14"] => Driver.TxPool.main; return 0
+  | ["C18"] => Driver.ConnGater.main; return 0
   | ["C01"] => Driver.BFT.main; return 0
   | _ => IO.eprintln "usage: ldriver <property-id>"; return 2
